@@ -486,7 +486,7 @@ def fixed_docs():
 def generate(tier, rng):
     for c in fixed_docs():
         yield c
-    n = 1500 if tier == "quick" else 20000
+    n = 1100 if tier == "quick" else 8000
     for i in range(n):
         r = i % 10
         stream = "plain" if r < 6 else ("codelike" if r < 8 else "layout")
